@@ -33,16 +33,18 @@ export VERIF_REPO="$S/repo"
 export VERIF_SEED="${VERIF_SEED:-0}"
 files=()
 for p in "${PATCHES[@]}"; do
-  if [ -d "$p" ]; then for f in "$p"/*.patch "$p"/*.diff; do [ -f "$f" ] && files+=("$f"); done; else files+=("$p"); fi
+  if [ -d "$p" ]; then for f in "$p"/*.patch "$p"/*.diff "$p"/*/patch.diff; do [ -f "$f" ] && files+=("$f"); done; else files+=("$p"); fi
 done
 "$S/verif/run.sh" C14 quick >/dev/null 2>&1   # warm build
 echo "[" > "$OUT.tmp"; first=1
 for f in "${files[@]}"; do
   name=$(basename "$f"); name="${name%.*}"
+  [ "$name" = "patch" ] && name=$(basename "$(dirname "$f")")
   if ! git -C "$S/repo" apply "$f" 2>/dev/null; then echo "$name: patch does not apply" >&2; continue; fi
   suite="pass"
   (cd "$S/repo" && cargo test --offline >/dev/null 2>&1) || suite="FAIL"
   case "$CHECKS" in
+    own) ids="${name%%-*}" ;;
     expected) ids=$(python3 -c "
 import json,sys
 idx={m['name']:m for m in json.load(open('$HERE/mutants/index.json'))}
